@@ -34,7 +34,7 @@ ASSUMPTIONS = ["(c) waits link_timeout + check period + one probe cycle of "
                "virtual time after each change before judging",
                "frames between switches are delivered within 0.5 virtual "
                "seconds"]
-REQUIRED = ["probes", "graphs", "graphs_with_cycles", "graphs_with_oneway",
+REQUIRED = ["host_frames_that_reached_the_controller_beside_the_probes", "histories_with_discovery_options", "probes", "graphs", "graphs_with_cycles", "graphs_with_oneway",
             "histories", "changes_judged", "flood_probes", "link_events",
             "both_directions_one_sweep", "quiet_periods_checked", "ports_hot_plugged",
             "histories_with_dpids_equal_to_port_numbers",
@@ -356,19 +356,20 @@ TOPOS = {
 }
 
 
-def launch_components (w, link_timeout=None, st_opts=None):
+def launch_components (w, link_timeout=None, st_opts=None, disc_opts=None):
   st_opts = dict(st_opts or {})
+  disc_opts = dict(disc_opts or {})
   if _st.get("launched"):
-    if _st.get("lt") != link_timeout or _st.get("st") != st_opts:
+    if _st.get("lt") != link_timeout or _st.get("st") != st_opts or _st.get("do") != disc_opts:
       raise simnet.Inconclusive("one discovery configuration per process")
     return
-  _st["lt"] = link_timeout; _st["st"] = st_opts
+  _st["lt"] = link_timeout; _st["st"] = st_opts; _st["do"] = disc_opts
   import pox.openflow.discovery as D
   import pox.openflow.spanning_tree as ST
   if w.core.hasComponent("openflow_discovery"):
     raise simnet.Inconclusive("stub discovery registered in this process")
-  if link_timeout: D.launch(link_timeout=link_timeout)
-  else: D.launch()
+  if link_timeout: D.launch(link_timeout=link_timeout, **disc_opts)
+  else: D.launch(**disc_opts)
   ST.launch(**st_opts)
   w.run()
   _st["launched"] = True
@@ -379,8 +380,9 @@ def launch_components (w, link_timeout=None, st_opts=None):
 
 def run_history (case, rep):
   w = world()
-  launch_components(w, case.get("link_timeout"), case.get("st_opts"))
+  launch_components(w, case.get("link_timeout"), case.get("st_opts"), case.get("disc_opts"))
   if case.get("st_opts"): rep.count("histories_with_spanning_tree_options")
+  if case.get("disc_opts"): rep.count("histories_with_discovery_options")
   def fire (key, what):
     rep.violation("C19 e2e: " + key, what, case)
   core = w.core
@@ -496,6 +498,27 @@ def run_history (case, rep):
           try: old.worker.close()
           except Exception: pass
           w.run()
+      elif k == "hostpkt":
+        # ordinary traffic of a host reaches the controller (a table miss on
+        # a host-facing port): an ARP request, an LLDP frame of somebody
+        # else's, a unicast datagram.  None of discovery's business - and it
+        # goes on listening for its own probes afterwards
+        i_ = op[1]
+        if i_ in topo.sw:
+          hp = [p_ for p_ in (pm(4), pm(3)) if p_ in topo.sw[i_].switch.ports
+                and (i_, p_) not in topo.phys]
+          if hp:
+            hsrc = b"\x02\0\0\0\x01" + bytes([0x10 + i_])
+            frames_ = [F.eth(b"\xff" * 6, hsrc, 0x0806,
+                             F.arp(1, hsrc, 0x0a000001, b"\0" * 6, 0x0a000002)),
+                       F.eth(bytes.fromhex("0180c200000e"), hsrc, 0x88cc,
+                             bytes.fromhex("0207040200000001" "04030231" "06020078" "0000")),
+                       F.eth(b"\x02\0\0\0\x01\x99", hsrc, 0x0800,
+                             F.ipv4(0x0a000001, 0x0a000002, 17,
+                                    F.udp(7, 9, b"host", src=0x0a000001, dst=0x0a000002)))]
+            for _ in range(op[3] if len(op) > 3 else 1):
+              topo.sw[i_].inject(hp[0], frames_[op[2] % 3]); w.run(); topo.deliver()
+            rep.count("host_frames_that_reached_the_controller_beside_the_probes")
       elif k == "hotplug":
         # ports that did not exist when the switch connected are added one
         # by one (each announced with a port-status message)
@@ -720,7 +743,7 @@ def gen_graphs (spec, rng):
       yield dict(kind="graph", links=links)
 
 
-def gen_histories (rng, n, link_timeout=None, st_opts=None):
+def gen_histories (rng, n, link_timeout=None, st_opts=None, disc_opts=None):
   names = sorted(TOPOS)
   for _ in range(n):
     tname = rng.choice(names)
@@ -763,7 +786,15 @@ def gen_histories (rng, n, link_timeout=None, st_opts=None):
       # tree and Open vSwitch all take ports to be below it)
       case["port_map"] = {str(rng.choice([1, 2])): 0xfeff}
     if rng.random() < 0.3: case["hub"] = True
+    # (discovery told not to install its own flow relies on the probes missing
+    #  the table: no flood-everything flow beside it)
+    if (disc_opts or {}).get("no_flow"): case.pop("hub", None)
     if st_opts: case["st_opts"] = st_opts
+    if disc_opts: case["disc_opts"] = disc_opts
+    if rng.random() < (0.9 if disc_opts else 0.4):
+      for _ in range(rng.randrange(1, 3)):
+        case["ops"].insert(rng.randrange(len(case["ops"]) + 1),
+                           ["hostpkt", rng.randrange(nsw), rng.randrange(3), rng.choice([1, 1, 3])])
     yield case
 
 
@@ -777,7 +808,10 @@ def plan (tier, seed):
              for i in range(9)] +
             [dict(mode="e2e", n=20, sub=20 + i, lt=None, st=o)
              for i, o in enumerate([dict(no_flood=True), dict(hold_down=True),
-                                    dict(no_flood=True, hold_down=True)])])
+                                    dict(no_flood=True, hold_down=True)])] +
+            [dict(mode="e2e", n=15, sub=40 + i, lt=[None, 3, None][i], do=o)
+             for i, o in enumerate([dict(eat_early_packets=True), dict(explicit_drop=False),
+                                    dict(no_flow=True, eat_early_packets=True)])])
   return ([dict(mode="probe", n=200000, sub=0)] +
           [dict(mode="graph", g="s3p2", shard=0, nshards=1)] +
           [dict(mode="graph", g="s4p2", shard=i, nshards=96) for i in range(24)] +
@@ -787,7 +821,11 @@ def plan (tier, seed):
            for i in range(48)] +
           [dict(mode="e2e", n=200, sub=100 + i, lt=[None, 3][i % 2], st=o)
            for i, o in enumerate([dict(no_flood=True), dict(hold_down=True),
-                                  dict(no_flood=True, hold_down=True)] * 4)])
+                                  dict(no_flood=True, hold_down=True)] * 4)] +
+          [dict(mode="e2e", n=200, sub=200 + i, lt=[None, 3][i % 2], do=o)
+           for i, o in enumerate([dict(eat_early_packets=True), dict(explicit_drop=False),
+                                  dict(no_flow=True, eat_early_packets=True),
+                                  dict(no_flow=True)] * 3)])
 
 
 def run (spec, rep):
@@ -796,7 +834,7 @@ def run (spec, rep):
                                             spec.get("sub", spec.get("shard", 0))))
   if spec["mode"] == "probe": g = gen_probes(rng, spec["n"])
   elif spec["mode"] == "graph": g = gen_graphs(spec, rng)
-  else: g = gen_histories(rng, spec["n"], spec.get("lt"), spec.get("st"))
+  else: g = gen_histories(rng, spec["n"], spec.get("lt"), spec.get("st"), spec.get("do"))
   first = True
   for case in g:
     do_case(case, rep)
